@@ -232,7 +232,7 @@ namespace
         if (s.coll != 0)
         {
             // a list index outside the list would throw in the middle of the run: reject the case up front
-            const std::int64_t hi = s.coll == 1 ? 40 : 5;
+            const std::int64_t hi = s.coll == 1 ? 200 : 5;
             for (const Line &l : c)
             {
                 if (l[0] == 2 && l.size() >= 4 && (l[2] < 0 || l[2] > hi)) { out.line({39, 3}); return; }
